@@ -55,8 +55,20 @@ def check_owner_consistency(ctx, rule, fi, want_slots: bool):
     cfg, du, pm = fctx(fi)
     loopvars = loop_owner_vars(fi.node)
     n = 0
-    for c in method_calls(fi.node, "R_to_k"):
-        owner = _rtok_owner(c, loopvars)
+    rtok_calls = list(method_calls(fi.node, "R_to_k"))
+    alias_of: Dict[int, ast.AST] = {}
+    for c in ast.walk(fi.node):
+        # a bound method kept in a local:  f = X.rvec.R_to_k ; f(M)
+        if isinstance(c, ast.Call) and isinstance(c.func, ast.Name):
+            try:
+                d_ = du.single_def(c.func.id, du.node_of_expr(c))
+            except AnalysisError:
+                d_ = None
+            if d_ is not None and d_.kind == "assign" and isinstance(d_.value, ast.Attribute) and d_.value.attr == "R_to_k":
+                rtok_calls.append(c)
+                alias_of[id(c)] = d_.value
+    for c in rtok_calls:
+        owner = _rtok_owner(c if id(c) not in alias_of else ast.Call(func=alias_of[id(c)], args=c.args, keywords=c.keywords), loopvars)
         if owner is None:
             rule.expect(False, "", fi, c, f"{fi.short}: cannot tell whose R-vectors `{norm1(c.func)}` uses (receiver is neither self, a spin "
                         f"channel of self, nor a loop variable over an enumerable list of channels)")
@@ -247,19 +259,29 @@ def run(ctx) -> None:
     for rel, q in ((DKR, "Data_K_R.E_K_corners_parallel"), (DKS, "Data_K_soc.E_K_corners_parallel")):
         f = idx.function(rel, q)
         cfg, du, pm = fctx(f)
-        prods = [s for s in stmts(f.node) if isinstance(s, ast.Assign) and isinstance(s.value, ast.BinOp)
-                 and isinstance(s.value.op, ast.Mult) and len([x for x in ast.walk(s.value) if isinstance(x, ast.Subscript)]) == 3
-                 and all(isinstance(x.slice, ast.Tuple) and len(x.slice.elts) == 3
-                         for x in ast.walk(s.value) if isinstance(x, ast.Subscript))]
+        fi_ = unroll_finite_loops(idx, inline_private_helpers(idx, f))
+        class _P:      # a product expression wherever it stands (assignment, return of a local closure, call argument)
+            def __init__(self, value, lineno):
+                self.value, self.lineno = value, lineno
+        prods = []
+        for root_ in (f.node, fi_.node):
+            pm_ = fctx(root_)[2]
+            for b_ in ast.walk(root_):
+                if isinstance(b_, ast.BinOp) and isinstance(b_.op, ast.Mult) and not (isinstance(pm_.get(b_), ast.BinOp) and isinstance(pm_.get(b_).op, ast.Mult)):
+                    subs_ = [x for x in ast.walk(b_) if isinstance(x, ast.Subscript)]
+                    if len(subs_) == 3 and all(isinstance(x.slice, ast.Tuple) and len(x.slice.elts) == 3 for x in subs_):
+                        prods.append(_P(b_, getattr(b_, "lineno", 0)))
+            if prods:
+                break
         if not prods:
-            raise AnalysisError(f"{f.short}: phase product `e[ix,:,0]*e[iy,:,1]*e[iz,:,2]` not found")
+            r3.expect(False, "", f, f.node, f"{f.short}: phase product `e[ix,:,0]*e[iy,:,1]*e[iz,:,2]` not found")
         for s in prods:
             subs = [x for x in ast.walk(s.value) if isinstance(x, ast.Subscript)]
             pairs = sorted((norm(x.slice.elts[0]), norm(x.slice.elts[2])) for x in subs)
             bases = {norm(x.value) for x in subs}
-            r3.instance(f"{f.short}: {norm1(s, 90)}")
+            r3.instance(f"{f.short}: {norm1(s.value, 90)}")
             r3.check(pairs == [("ix", "0"), ("iy", "1"), ("iz", "2")] and len(bases) == 1,
-                     "corner index ix/iy/iz pairs with Cartesian axis 0/1/2 of one phase table", f, s,
+                     "corner index ix/iy/iz pairs with Cartesian axis 0/1/2 of one phase table", f, s.value,
                      f"phase product pairs {pairs} of tables {sorted(bases)}: corner (ix,iy,iz) gets the phase of a "
                      f"different corner")
         # target slot order
